@@ -72,13 +72,19 @@ CHECKS = {
         deep=True,      # ./check adds --deep for the thorough tier: bounds beyond the promoted ones (see bounds["thorough"])
         level="exploration",
         runs=[dict(name="dh", target="h_dh", args=[], quick=[], thorough=[], post=c10_post)],
-        deadline=dict(quick=150, thorough=600),
+        deadline=dict(quick=150, thorough=900),   # deep: ~200 s measured on a loaded machine (3/4 of it the serial Python pow() re-verification)
         rule=("full cross product private value x (peer value | generate_pub) x blinding value incl. entropy failure, "
               "crypto_dh_generate for x * r * failure position, agreement for all pairs of private values, sanitycheck on p with every "
               "single byte/bit changed; a case is non-trivial when the call succeeded and the exact result is neither 0 nor 1 "
               "(modexp), or when the sanitycheck verdict was compared for a distinct value"),
         bounds=dict(quick="8 private values x (12 peer values + generate_pub) x 6 blinding values; 36 agreement pairs; 3082 sanitycheck values",
-                    thorough="24 private values x (36 peer values + generate_pub) x 17 blinding values; 300 agreement pairs; 3108 + 130560 sanitycheck values"),
+                    thorough="24 private values x (36 peer values + generate_pub) x 17 blinding values; 300 agreement pairs; 3108 + 130560 sanitycheck values "
+                             "(these bounds also serve the quick tier). ./check --tier thorough runs the harness with --deep: 40 private values "
+                             "(adds 3, 2^32-1, 2^32, 2^63, 2^192, 2^255+2^254, aa.., 55.., 2^255-1, 2^256-3, 6 LCG values) x (67 peer values + generate_pub; adds 4, 5, 7, "
+                             "2^32, 2^63, 2^1023, 2^1025, 2^2046, p-3, p+3, p-2^64, p+2^64, q-1, aa.., 55.., 8 LCG values, 5 values sharing a prefix with p, 64/192/248 "
+                             "leading zero bytes) x 24 blinding values (adds ~x, 2^256-2^128, 2^128-1, 2, 2^255-1, 2 LCG values) = 65280 modexp calls, 2760 "
+                             "crypto_dh_generate calls, 820 agreement pairs; sanitycheck on 22633537 values: the above plus p with every pair of bytes set to "
+                             "{+1,-1,00,ff}x{+1,-1,00,ff} (391680) and every triple of bytes +-1 (22108160); 69480 results re-verified with Python pow()"),
         assumptions=["crypto_entropy_read() replaced at link time by a scripted source (the blinding value is an input)",
                      "OpenSSL's BN arithmetic is value-uniform: results for values outside the alphabets are not claimed",
                      "expected values: engine/ref/bn_ref.c (schoolbook 32-bit limbs, modulus from the RFC 3526 text) and, again, Python pow()"],
@@ -89,7 +95,8 @@ CLAIMS = {
     "C10": dict(
         text=("crypto_dh_generate_pub/compute/generate/sanitycheck are executed for the full cross product of boundary private values "
               "(0, 1, 2^255, 2^256-2, 2^256-1, leading/trailing zero bytes, LCG values), peer values (0, 1, 2, p-2, p-1, p, p+1, 2^2048-1, "
-              "values whose result has 1 and 2 leading zero bytes, LCG values) and blinding values (0, 1, 2^256-1, r=x, LCG, entropy failure). "
+              "values whose result has 1 and 2 leading zero bytes, LCG values) and blinding values (0, 1, 2^256-1, r=x, LCG, entropy failure); "
+              "the thorough tier (--deep) uses 40 x 67 x 24 values and adds byte pairs with 00/ff and all byte triples +-1 of p to the sanitycheck inputs. "
               "Every output is compared as a 256-byte big-endian string with y^(2^258+x) mod p computed by an independent schoolbook "
               "bignum and again by Python pow(); outputs for all blinding values of one (x,y) must be identical; all pairs of private "
               "values must agree on the key; sanitycheck must accept exactly the values below p for p with every single byte and bit "
